@@ -167,6 +167,7 @@ for d, _, fs in os.walk(src_root):
                 print("skip", rel, e)
 import ast as _ast
 known_globals = {}
+known_nested = {}
 for rel in known:
     try:
         tree = repo.module(rel).tree
@@ -181,8 +182,14 @@ for rel in known:
                 ts = b.targets if isinstance(b, _ast.Assign) else [b.target] if isinstance(b, _ast.AnnAssign) else []
                 names |= {f"{st.name}.{t.id}" for t in ts if isinstance(t, _ast.Name)}
     known_globals[rel] = sorted(names)
+    # functions defined inside functions (closures): "outer.inner"
+    for q_, fn_ in repo.module(rel).funcs.items():
+        for st in _ast.walk(fn_):
+            if st is not fn_ and isinstance(st, _ast.FunctionDef):
+                known_nested.setdefault(rel, []).append(f"{q_}.{st.name}")
 with open(os.path.join(HERE, "sa", "known_funcs_auto.py"), "w") as f:
     f.write('"""Generated by tools/rolegen.py - the functions and module/class-level names of every module as the rules know them."""\n\n')
     f.write("KNOWN = " + pprint.pformat(known, width=160) + "\n\n")
-    f.write("KNOWN_GLOBALS = " + pprint.pformat(known_globals, width=160) + "\n")
+    f.write("KNOWN_GLOBALS = " + pprint.pformat(known_globals, width=160) + "\n\n")
+    f.write("KNOWN_NESTED = " + pprint.pformat(known_nested, width=160) + "\n")
 print(f"{len(known)} modules, {sum(len(v) for v in known.values())} known functions")
